@@ -464,7 +464,8 @@ class Ctx(object):
             "known_findings_hit": sorted(hit),
             "repo": REPO,
         }
-        edir = os.path.join(VERIF, "evidence")
+        # the seeded-change tooling (tools/mutant.py) runs the checks against scratch trees: those runs are not evidence
+        edir = os.environ.get("VERIF_EVIDENCE_DIR") or os.path.join(VERIF, "evidence")
         os.makedirs(edir, exist_ok=True)
         with open(os.path.join(edir, "%s.json" % self.pid), "w") as f:
             json.dump(ev, f, indent=1, default=repr)
